@@ -61,6 +61,10 @@ func c15BuildZip(ents []c15ZEnt) ([]byte, error) {
 		if e.mode != 0 {
 			fh.SetMode(e.mode)
 		}
+		if strings.HasSuffix(e.name, "/") { // the writer refuses data for directory names
+			fh.CRC32, fh.CompressedSize64 = 0, 0
+			e.content = nil
+		}
 		w, err := zw.CreateRaw(fh)
 		if err != nil {
 			return nil, err
